@@ -100,7 +100,7 @@ def _merge_phases(pha_tpi, pha_tnpi):
 
     # Assign the periods after the last empirical phase timepoint to NaN
     diffs = np.diff(pha)
-    last_empirical_idx = next(idx for idx, xi in enumerate(diffs[::-1]) if xi > 0)
-    pha[-last_empirical_idx + 1:] = np.nan
+    last_empirical_idx = next(idx for idx, xi in enumerate(diffs[::-1]) if xi > 0 or xi < 0)
+    pha[len(pha) - last_empirical_idx:] = np.nan
 
     return pha
